@@ -237,6 +237,8 @@ func fileWriteAux(L *LState, file *lFile, idx int) int {
 	top := L.GetTop()
 	out := file.writer
 	var err error
+	// bytes the reader fetched ahead were not consumed: output belongs at the logical position
+	file.AbandonReadBuffer()
 	for i := idx; i <= top; i++ {
 		L.CheckTypes(i, LTNumber, LTString)
 		s := LVAsString(L.Get(i))
